@@ -568,6 +568,22 @@ def check_procs(case, ctx):
                                        ((0.3, 0.3), (0.7, 0.3), (0.7, 0.7), (0.3, 0.7), (0.3, 0.3))])
                 mine[0].trims = [trim_]
                 mine[0].tessellator = tsl_
+                pieces_ = []
+                if len(mine) >= 2:
+                    # (sixth hunt) a second surface trimmed by a loop of four curves in a CurveContainer: the caller's curve objects are
+                    # still the curves of that loop afterwards
+                    from geomdl import BSpline as _BS
+                    (ua2_, ub2_), (va2_, vb2_) = G.domains_of(mine[1])
+                    cs_ = [(0.3, 0.3), (0.7, 0.3), (0.7, 0.7), (0.3, 0.7)]
+                    for k2_ in range(4):
+                        c2_ = _BS.Curve()
+                        c2_.degree = 1
+                        c2_.ctrlpts = [[ua2_ + x_ * (ub2_ - ua2_), va2_ + y_ * (vb2_ - va2_)] for x_, y_ in (cs_[k2_], cs_[(k2_ + 1) % 4])]
+                        c2_.knotvector = [0.0, 0.0, 1.0, 1.0]
+                        pieces_.append(c2_)
+                    loop_ = multi.CurveContainer(*pieces_)
+                    mine[1].trims = [loop_]
+                    mine[1].tessellator = _tsl.TrimTessellate()
                 if listed_twice:
                     mine = [mine[0]] + mine          # the same surface listed twice, distinct surfaces after it
                 ms = multi.SurfaceContainer(*mine)
@@ -578,6 +594,8 @@ def check_procs(case, ctx):
                        [[list(p) for p in e.evalpts] for e in ms]]
                 # the component the caller installed holds the mesh of its surface; the objects it handed over are still in place
                 out.append([len(tsl_.faces), mine[0].tessellator is tsl_, mine[0].trims[0] is trim_])
+                if pieces_:
+                    out.append(['loop-curves-kept'] + [a_ is b_ for a_, b_ in zip(loop_, pieces_)])
                 if edit:
                     # the surfaces the caller put into the container are still the container's surfaces
                     operations.translate(mine[0], shift, inplace=True)
